@@ -64,6 +64,7 @@ type vfConsCase struct {
 	ReadTimeoutMs int      `json:"readTimeoutMs"`
 	Delays       map[string][]int `json:"delays,omitempty"`
 	C12          *vfC12Ctl `json:"c12,omitempty"`
+	Brokers      int  `json:"brokers,omitempty"` // 0/1 = one broker; 2 = leader moves are possible
 	PauseReadersAtClose bool `json:"pauseReadersAtClose,omitempty"` // Close() must not depend on somebody still reading Messages()
 }
 
@@ -328,7 +329,11 @@ func (c *vfConsCase) config(run *vfConsRun) *Config {
 // vfExecCons runs the case against the real consumer.
 func vfExecCons(c *vfConsCase) *vfConsRun {
 	run := &vfConsRun{c: c}
-	sim := newVfSim(1)
+	nb := c.Brokers
+	if nb < 1 {
+		nb = 1
+	}
+	sim := newVfSim(nb)
 	run.sim = sim
 	defer sim.shutdown()
 	leaders := make([]int32, len(c.Parts))
@@ -496,28 +501,72 @@ func vfExecCons(c *vfConsCase) *vfConsRun {
 		}
 		return true
 	}
-	// progress in protocol rounds: stuck = many fault-free fetch rounds without a delivery or a fetch-offset advance
-	lastProg := run.progressKey()
+	// progress in protocol rounds, per partition: a partition consumer is stuck if the simulator has served it many further
+	// fault-free fetch answers that carried data at or beyond its fetch offset and neither a message was delivered nor its
+	// fetch offset advanced. Independently: nobody sends fetch requests any more for Tq.
+	type prog struct {
+		delivered int
+		off       int64
+		rounds    int64
+	}
+	lastP := make([]prog, n)
+	snap := func(pi int) prog {
+		run.mu.Lock()
+		d := len(run.got[pi])
+		run.mu.Unlock()
+		key := fmt.Sprintf("fetch/t/%d", pi)
+		return prog{d, sim.fetchOffsetOf(key), sim.dataRoundsOf(key)}
+	}
+	for pi := range lastP {
+		lastP[pi] = snap(pi)
+	}
 	lastRounds := atomic.LoadInt64(&sim.fetchRounds)
 	lastChange := time.Now()
-	for !reached() && !run.stop.stopped() {
-		k := run.progressKey()
-		r := atomic.LoadInt64(&sim.fetchRounds)
-		if k != lastProg {
-			lastProg, lastRounds, lastChange = k, r, time.Now()
+	lastOcc := make([]int64, n)
+	exhausted := false
+	for !reached() && !run.stop.stopped() && run.stuck == "" && !exhausted {
+		for pi := range c.Parts {
+			if pcs[pi] == nil {
+				continue
+			}
+			cur := snap(pi)
+			if cur.delivered != lastP[pi].delivered || cur.off != lastP[pi].off {
+				lastP[pi] = cur
+				lastOcc[pi] = 0
+				continue
+			}
+			run.mu.Lock()
+			doneP := len(run.got[pi]) >= want[pi] || run.closedCh[pi]
+			run.mu.Unlock()
+			if !doneP {
+				// the consumer already asks at or beyond the end of what it may see: nothing more will ever arrive for it
+				sim.mu.Lock()
+				m := sim.logs[fmt.Sprintf("t/%d", pi)]
+				end := m.hwm()
+				if c.Isolation == 1 {
+					end = m.lso()
+				}
+				sim.mu.Unlock()
+				occ := int64(sim.occOf(fmt.Sprintf("fetch/t/%d", pi)))
+				if lastOcc[pi] == 0 || cur.off < end {
+					lastOcc[pi] = occ
+				} else if occ-lastOcc[pi] > 60 {
+					exhausted = true
+				}
+			}
+			if !doneP && cur.rounds-lastP[pi].rounds > 200 {
+				run.stuck = fmt.Sprintf("partition %d: no delivery and no fetch-offset advance although %d further fault-free fetch answers carried data for it (delivered %d of %d)", pi, cur.rounds-lastP[pi].rounds, cur.delivered, want[pi])
+			}
 		}
-		if r-lastRounds > 400 && run.faultsConsumed() {
-			run.stuck = fmt.Sprintf("no delivery and no fetch-offset advance during %d further fault-free fetch rounds (delivered %d of %d)", r-lastRounds, atomic.LoadInt64(&run.nDelivered), total)
-			break
+		if r := atomic.LoadInt64(&sim.fetchRounds); r != lastRounds || atomic.LoadInt64(&sim.pending) > 0 {
+			lastRounds, lastChange = r, time.Now()
 		}
-		if time.Since(lastChange) > vfTq() && r == lastRounds {
+		if time.Since(lastChange) > vfTq() {
 			run.stuck = fmt.Sprintf("consumer went silent: no fetch request for %v (delivered %d of %d)", vfTq(), atomic.LoadInt64(&run.nDelivered), total)
 			run.stacks = vfcore.Stacks()
-			break
 		}
 		if time.Since(lastChange) > 60*time.Second {
 			run.stuck = "no progress for 60 s"
-			break
 		}
 		time.Sleep(200 * time.Microsecond)
 	}
@@ -699,6 +748,11 @@ func vfOracleCons(run *vfConsRun, checkProgress bool) *vfcore.Failure {
 			}
 			if p.Start >= 0 && (p.Start < p.LogStart || p.Start > hw) {
 				continue // documented: out of range literal start is refused
+			}
+			if run.startErr[pi] != ErrOffsetOutOfRange.Error() {
+				// the start failed for a reason that has nothing to do with the offset (e.g. the spurious ErrNotConnected of
+				// known finding KF-C15-1 when two goroutines open the same broker): the statement is about consumers that started
+				continue
 			}
 			return run.fail("start-refused", "ConsumePartition(t,%d,%d) failed: %s (log start %d, end %d)", pi, p.Start, run.startErr[pi], p.LogStart, hw)
 		}
